@@ -663,6 +663,9 @@ func genChan(tier string, seed int64, only string) []*Case {
 		for capacity := 0; capacity <= 3; capacity++ {
 			for _, cl := range []string{"1", "0"} {
 				add("kind", "chan", "op", "FromChannel", "cap", strconv.Itoa(capacity), "close", cl, "cut", "-", "sub", "7", "src", s)
+				// cancelled subscription context: FromChannel still forwards every value until the channel is closed
+				// (a done context does not end a stream, only ThrowOnContextCancel does)
+				add("kind", "chan", "op", "FromChannel", "cap", strconv.Itoa(capacity), "close", cl, "cut", "-", "cc", "1", "sub", "7", "src", s)
 				for k := 0; k <= len(vals) && k <= 8; k++ {
 					add("kind", "chan", "op", "FromChannel", "cap", strconv.Itoa(capacity), "close", cl, "cut", strconv.Itoa(k), "sub", "7", "src", s)
 				}
